@@ -21,7 +21,13 @@ SPEC = dict(gen=['tables', 'actions', 'lexdata', 'unicodecat'], props=['CalmVeri
 
 BEFORE = ['a', '1', "'s'", '/r/', 'this', 'null', 'true', 'a++', 'a--', '(a)', 'f(a)', 'a[0]', '[1]', '({})', 'x = {}', 'function(){}',
           'a.b', 'a +', 'a =', 'a ,', 'a ?', 'a ? b :', '(', '[', '!', 'typeof', 'void', 'delete', 'new', 'a in', 'a instanceof', '+',
-          '-', '++', '--', '~', 'a <', 'a ==', 'a &&', 'a ||', 'a *', 'a /', 'a %', 'a +=', 'a /=']
+          '-', '++', '--', '~', 'a <', 'a ==', 'a &&', 'a ||', 'a *', 'a /', 'a %', 'a +=', 'a /=',
+          # reserved words used as property names (IdentifierName), also called: the `)` closes a call, not a statement header
+          'a.with(b)', 'a.if(b)', 'a.while(b)', 'a.for(b)', 'a.with', 'a.in', 'a.typeof(b)', 'a.return', 'a.this', 'a.function(b)',
+          '{with: 1}.with', 'a.b.with(c)(d)', 'a[with_](b)']
+# contexts that put the statement inside a still open parenthesis / bracket of an enclosing expression
+WRAPPERS = ['f(function(){ %s })', '(function(){ %s })()', '[function(){ %s }]', 'x = (a, function(){ %s })', 'g(1, (function(){ %s }))',
+            'if (function(){ %s }) y', 'for (x = function(){ %s };;) ;', 'a[function(){ %s }]', 'new (function(){ %s })']
 STMT_BEFORE = ['if (a)', 'while (a)', 'for (;;)', 'for (a in b)', 'if (a) b; else', 'do', '{}', '{ a }', ';', 'function f(){}',
                'x: ', 'switch (a) { case 1:', 'try {} finally {}', 'return', 'throw', 'var a =', 'if (f(a))', 'if ((a))', 'while (a) {}',
                'for (var i = 0; i < (n); i++)', 'a = {}', 'a = function(){}', 'case']
@@ -74,6 +80,12 @@ def cases(ctx):
             for s in (SEPS if ctx.tier == 'thorough' else rng.sample(SEPS, 2)):
                 out.append('%s%s%s' % (b, s, a))
                 out.append('function g(){ %s%s%s }' % (b, s, a))
+    for w in WRAPPERS:
+        for b in STMT_BEFORE + ['a', '(a)', 'a.with(b)', 'f(a)']:
+            for a in (AFTER if ctx.tier == 'thorough' else rng.sample(AFTER, 4)):
+                s = rng.choice(SEPS[:4])
+                out.append(w % ('%s%s%s' % (b, s, a)))
+                out.append('y = ' + (w % ('%s%s%s' % (b, s, a))) + ' / 2 / 1')
     # generated programs rich in regexes and divisions
     opts = genjs.Opts(with_stmt=False, regex=True, p_binop=0.12)
     for text, toks, lo in genjs.programs(rng, ctx.n(250, 3000), opts=opts):
